@@ -257,13 +257,13 @@ theorem rel_init (src : Bytes) (w h : Nat) (hw : 0 < w) :
 
 /-- **Interleaved RLE at 16 bpp is exact** for every stream the reference decoder
     (MS-RDPBCGR 3.1.9 `RleDecompress`, Spec/Bitmap.lean) accepts in which no order crosses
-    the end of the first scanline and every order is of a kind listed in
-    `Rle16.supported`: `decompress` returns the reference raster, rows top-down, every
-    pixel widened exactly (`c09_widen`). -/
-theorem c09_rle16_supported (w h : Nat) (hw : 0 < w) (src : Bytes) (flat : List Pixel)
+    the end of the first scanline — EVERY order kind (background, foreground, colour and
+    dithered runs, FG/BG and colour images, the special orders, white, black) in every length
+    form: `decompress` returns the reference raster, rows top-down, every pixel widened
+    exactly (`c09_widen`). -/
+theorem c09_rle16 (w h : Nat) (hw : 0 < w) (src : Bytes) (flat : List Pixel)
     (href : rle16Decode w h src = some flat)
-    (hnc : noFirstLineCrossing w h src = true)
-    (hsup : supportedLoop w (w * h) (src.length + 1) ⟨[], WHITE, false, true⟩ src = true) :
+    (hnc : noFirstLineCrossing w h src = true) :
     decompress ⟨w, h, 16, true, src.toArray⟩ = .ok (((topDown w flat).flatMap widen565).map UInt8.ofNat) := by
   unfold rle16Decode at href
   cases hdec : decodeLoop w (w * h) (src.length + 1) ⟨[], WHITE, false, true⟩ src with
@@ -273,8 +273,8 @@ theorem c09_rle16_supported (w h : Nat) (hw : 0 < w) (src : Bytes) (flat : List 
     simp only at href
     by_cases hlen : dfin.dest.length = w * h
     · simp only [hlen, if_true, Option.some.injEq] at href
-      obtain ⟨sfin, hord, rfin⟩ := orders_sim (inp := src.toArray) hw (src.length + 1) (rel_init src w h hw) hdec
-        hnc hsup (src.length + 1) (by omega)
+      obtain ⟨sfin, hord, rfin⟩ := orders_sim_all (inp := src.toArray) hw (src.length + 1) (rel_init src w h hw) hdec
+        hnc (src.length + 1) (by omega)
       have hsz : w * h ≤ sfin.out.size := by have := rfin.inv.inv.size; rw [Nat.mul_comm]; exact this
       have hem : emitted w h sfin = w * h := by rw [← hlen, ← rfin.dest, toNats_length, flat_length]
       unfold decompress
@@ -304,10 +304,40 @@ end Rdp.Codec
 namespace Rdp.Codec
 open Rdp Rdp.Spec.Bitmap Rdp.Rle16
 
+/-- the statement `c09_rle16_partial` (every width, 0 included) holds -/
+theorem c09_rle16_partial_holds : c09_rle16_partial := by
+  intro w h src flat href hnc
+  rcases Nat.eq_zero_or_pos w with hz | hw
+  · subst hz
+    obtain ⟨rfl, rfl⟩ := rle16Decode_w0 h src flat href
+    unfold decompress
+    simp only [show ¬ ((16 : Nat) = 32) by decide, if_false, if_true]
+    have e : (0 : Nat) * h * 2 = 0 := by simp
+    rw [e]
+    have h1 : Rle16.decompress ([] : Bytes).toArray 0 h (Array.replicate 0 0) = .ok #[] := by
+      simp [Rle16.decompress, Rle16.orders, Rle16.initSt]
+    rw [h1]
+    simp [rgb565torgb32, topDown]
+  · exact c09_rle16 w h hw src flat href hnc
+
+/-- the earlier, restricted form (kept under its name): a corollary -/
+theorem c09_rle16_supported (w h : Nat) (hw : 0 < w) (src : Bytes) (flat : List Pixel)
+    (href : rle16Decode w h src = some flat)
+    (hnc : noFirstLineCrossing w h src = true)
+    (_hsup : supportedLoop w (w * h) (src.length + 1) ⟨[], WHITE, false, true⟩ src = true) :
+    decompress ⟨w, h, 16, true, src.toArray⟩ = .ok (((topDown w flat).flatMap widen565).map UInt8.ofNat) :=
+  c09_rle16 w h hw src flat href hnc
+
 /-- the premises are satisfiable: white, a one-pixel background run, a one-pixel colour run
     (0x1234) and a background run that copies the pixel above -/
 example : rle16Decode 2 2 [0xFD, 0x01, 0x61, 0x34, 0x12, 0x01] = some [0xFFFF, 0, 0x1234, 0] ∧
     noFirstLineCrossing 2 2 [0xFD, 0x01, 0x61, 0x34, 0x12, 0x01] = true ∧
     supportedLoop 2 (2 * 2) 7 ⟨[], WHITE, false, true⟩ [0xFD, 0x01, 0x61, 0x34, 0x12, 0x01] = true := by decide
+
+/-- and with the other order kinds: a 4×5 bitmap from a colour image of 2, a dithered run of 1 (first
+    scanline), a special order, and an FG/BG image of 8 bits with mask 0x05 -/
+example : (rle16Decode 4 5 [0x82, 0x11, 0x11, 0x22, 0x22, 0xE1, 0x33, 0x33, 0x44, 0x44, 0xF9, 0x41, 0x05]).isSome = true ∧
+    noFirstLineCrossing 4 5 [0x82, 0x11, 0x11, 0x22, 0x22, 0xE1, 0x33, 0x33, 0x44, 0x44, 0xF9, 0x41, 0x05] = true := by
+  decide
 
 end Rdp.Codec
